@@ -51,6 +51,7 @@ func (j *jobs) Add(p *Process) {
 
 func (j *jobs) GarbageCollect() {
 	j.mutex.Lock()
+	verifhook.Emit(j, "jobs.gc.start", "")
 
 	var (
 		last    = -1
